@@ -663,6 +663,24 @@ func (g *gen) message() {
 			g.feat("damage:announced-trailer-omitted")
 			trailers = nil
 		}
+		if len(trailers) > 0 && g.p(20) {
+			// a declared field sent a second time, anywhere behind its first line (also behind the
+			// last outstanding declared field): net/http collects both values
+			k := g.rng.Intn(len(trailers))
+			v := g.value()
+			for v == "" {
+				v = g.value()
+			}
+			pos := k + 1 + g.rng.Intn(len(trailers)-k)
+			trailers = append(trailers, hdr{})
+			copy(trailers[pos+1:], trailers[pos:])
+			trailers[pos] = hdr{trailers[k].name, v}
+			if pos == len(trailers)-1 {
+				g.feat("trailer-field-repeated-behind-the-last-declared")
+			} else {
+				g.feat("trailer-field-repeated")
+			}
+		}
 		for _, t := range trailers {
 			if o.Strict {
 				g.s(t.name)
